@@ -248,7 +248,7 @@ fn plan_key(plan: &IoPlan, fired: &[usize]) -> u64 {
         let x = &plan.faults[i];
         d.u64(x.side as u64);
         d.u64(match x.kind {
-            FaultKind::Hard(k) => 0x10 + k as u64,
+            FaultKind::Hard(k) => 0x10 + k as u64 + ((x.arg as u64 % 4) << 8),
             FaultKind::Interrupted => 0x30 + x.arg.clamp(1, 3) as u64,
             FaultKind::Zero => 0x40,
         });
@@ -343,7 +343,10 @@ impl<'a> JobState<'a> {
             let f = &plan.faults[i];
             let side = if f.side == Side::Src { "src" } else { "dst" };
             let kind = match f.kind {
-                FaultKind::Hard(k) => format!("hard.{}", HARD_KINDS[k as usize % HARD_KINDS.len()].1),
+                FaultKind::Hard(k) => {
+                    self.res.bump(&format!("fault.error_flavour.{}", FLAVOURS[f.arg as usize % 4]));
+                    format!("hard.{}", HARD_KINDS[k as usize % HARD_KINDS.len()].1)
+                }
                 FaultKind::Interrupted => "interrupted".to_string(),
                 FaultKind::Zero => {
                     if f.side == Side::Src {
@@ -515,7 +518,7 @@ pub fn minimise(prep: &Prepared, plan: &IoPlan, clause: &str) -> (IoPlan, RunOut
         }
         // simplify arguments
         for i in 0..best.faults.len() {
-            if best.faults[i].arg > 1 {
+            if best.faults[i].arg > 1 && !matches!(best.faults[i].kind, FaultKind::Hard(_)) {
                 let mut cand = best.clone();
                 cand.faults[i].arg = 1;
                 if same(&cand, &mut budget).is_some() {
@@ -524,9 +527,10 @@ pub fn minimise(prep: &Prepared, plan: &IoPlan, clause: &str) -> (IoPlan, RunOut
                 }
             }
             if let FaultKind::Hard(k) = best.faults[i].kind {
-                if k != 0 {
+                if k != 0 || best.faults[i].arg != 0 {
                     let mut cand = best.clone();
                     cand.faults[i].kind = FaultKind::Hard(0);
+                    cand.faults[i].arg = 0;
                     if same(&cand, &mut budget).is_some() {
                         best = cand;
                         changed = true;
@@ -708,7 +712,7 @@ impl Engine for IoEngine {
                         side: Side::Src,
                         kind: FaultKind::Hard(((n + mi) % HARD_KINDS.len()) as u8),
                         at: off,
-                        arg: 0,
+                        arg: ((n / HARD_KINDS.len()) % 4) as u32,
                     }],
                     tail_seed: off ^ 0x77,
                 };
@@ -733,7 +737,7 @@ impl Engine for IoEngine {
                         side: Side::Dst,
                         kind: FaultKind::Hard(((n + mi + 3) % HARD_KINDS.len()) as u8),
                         at: off,
-                        arg: 0,
+                        arg: ((n / HARD_KINDS.len() + 1) % 4) as u32,
                     }],
                     tail_seed: off ^ 0x99,
                 };
@@ -839,7 +843,8 @@ impl Engine for IoEngine {
                     side,
                     kind,
                     at,
-                    arg: rng.range(1, 3) as u32,
+                    // burst length for EINTR, error construction flavour for hard errors
+                    arg: if matches!(kind, FaultKind::Hard(_)) { rng.below(4) as u32 } else { rng.range(1, 3) as u32 },
                 });
             }
             let plan = IoPlan {
